@@ -24,6 +24,7 @@ type Hub struct {
 	history   *ring.Ring
 	listeners map[Listener]struct{} // listeners interested in new messages
 	opChan    chan func(h *Hub)     // operations queued for this actor
+	done      chan struct{}         // closed when the processing loop has stopped
 }
 
 // New constructs a new Hub which will cache historyLen messages in memory for playback to future
@@ -34,6 +35,7 @@ func New(historyLen int, extHost *extension.Host) *Hub {
 		history:   ring.New(historyLen),
 		listeners: make(map[Listener]struct{}),
 		opChan:    make(chan func(h *Hub), opChanLen),
+		done:      make(chan struct{}),
 	}
 
 	// Register an extension event listener for MessageStored.
@@ -55,8 +57,9 @@ func (hub *Hub) Start(ctx context.Context) {
 	for {
 		select {
 		case <-ctx.Done():
-			// Shutdown
-			close(hub.opChan)
+			// Shutdown.  The queue stays open: sessions that are still finishing keep emitting
+			// events, which are dropped from now on.
+			close(hub.done)
 			return
 		case op := <-hub.opChan:
 			hub.runOp(op)
@@ -64,10 +67,26 @@ func (hub *Hub) Start(ctx context.Context) {
 	}
 }
 
+// enqueue queues an operation for the processing loop.  It reports false, without blocking, once
+// the loop has stopped.
+func (hub *Hub) enqueue(op func(h *Hub)) bool {
+	select {
+	case <-hub.done:
+		return false
+	default:
+	}
+	select {
+	case hub.opChan <- op:
+		return true
+	case <-hub.done:
+		return false
+	}
+}
+
 // Dispatch queues a message for broadcast by the hub.  The message will be placed into the
 // history buffer and then relayed to all registered listeners.
 func (hub *Hub) Dispatch(msg event.MessageMetadata) {
-	hub.opChan <- func(h *Hub) {
+	hub.enqueue(func(h *Hub) {
 		if h.history != nil {
 			// Add to history buffer
 			h.history.Value = msg
@@ -80,12 +99,12 @@ func (hub *Hub) Dispatch(msg event.MessageMetadata) {
 				}
 			}
 		}
-	}
+	})
 }
 
 // Delete removes the message from the history buffer and instructs listeners to do the same.
 func (hub *Hub) Delete(mailbox string, id string) {
-	hub.opChan <- func(h *Hub) {
+	hub.enqueue(func(h *Hub) {
 		if h.history == nil {
 			return
 		}
@@ -111,12 +130,12 @@ func (hub *Hub) Delete(mailbox string, id string) {
 				delete(h.listeners, l)
 			}
 		}
-	}
+	})
 }
 
 // AddListener registers a listener to receive broadcasted messages.
 func (hub *Hub) AddListener(l Listener) {
-	hub.opChan <- func(h *Hub) {
+	hub.enqueue(func(h *Hub) {
 		// Playback log
 		h.history.Do(func(v interface{}) {
 			if v != nil {
@@ -126,24 +145,29 @@ func (hub *Hub) AddListener(l Listener) {
 
 		// Add to listeners
 		h.listeners[l] = struct{}{}
-	}
+	})
 }
 
 // RemoveListener deletes a listener registration, it will cease to receive messages.
 func (hub *Hub) RemoveListener(l Listener) {
-	hub.opChan <- func(h *Hub) {
+	hub.enqueue(func(h *Hub) {
 		delete(h.listeners, l)
-	}
+	})
 }
 
 // Sync blocks until the msghub has processed its queue up to this point, useful
 // for unit tests.
 func (hub *Hub) Sync() {
 	done := make(chan struct{})
-	hub.opChan <- func(_ *Hub) {
+	if !hub.enqueue(func(_ *Hub) {
 		close(done)
+	}) {
+		return
 	}
-	<-done
+	select {
+	case <-done:
+	case <-hub.done:
+	}
 }
 
 func (hub *Hub) runOp(op func(*Hub)) {
